@@ -2,7 +2,10 @@ mod comp;
 mod core;
 mod proj;
 
+mod c0235;
 mod c06;
+mod cmodel;
+mod oracle;
 mod c08;
 mod tok;
 mod c11;
@@ -154,6 +157,9 @@ fn main() {
     rayon::ThreadPoolBuilder::new().stack_size(256 << 20).build_global().ok();
     let ctx = Ctx { prop: prop.clone(), tier, seed, start: std::time::Instant::now(), replay };
     let rep = match prop.as_str() {
+        "C02" => c0235::run_c02(&ctx),
+        "C03" => c0235::run_c03(&ctx),
+        "C05" => c0235::run_c05(&ctx),
         "C06" => c06::run(&ctx),
         "C08" => c08::run(&ctx),
         "C11" => c11::run(&ctx),
